@@ -261,6 +261,60 @@ class _Handle(object):
             self.write(l)
 
 
+class SimRaw(io.RawIOBase):
+    """what io.FileIO(path) gives for a simulated file: a raw stream that io.BufferedReader /
+    io.BufferedWriter / io.TextIOWrapper can be stacked on"""
+
+    def __init__(self, handle, name):
+        io.RawIOBase.__init__(self)
+        self._h = handle
+        self.name = name
+        self.mode = handle.mode
+
+    def readable(self):
+        return self._h._can_read
+
+    def writable(self):
+        return self._h._can_write
+
+    def seekable(self):
+        return True
+
+    def readinto(self, b):
+        return self._h.readinto(b)
+
+    def write(self, b):
+        return self._h.write(bytes(b))
+
+    def seek(self, off, whence=0):
+        return self._h.seek(off, whence)
+
+    def tell(self):
+        return self._h.tell()
+
+    def truncate(self, size=None):
+        size = self._h.pos if size is None else size
+        d = self._h._data()
+        del d[size:]
+        return size
+
+    def fileno(self):
+        raise io.UnsupportedOperation('fileno (simulated file)')
+
+    def isatty(self):
+        return False
+
+    def close(self):
+        if not self.closed:
+            try:
+                self._h.close()
+            finally:
+                io.RawIOBase.close(self)
+
+
+FD_BASE = 1 << 24
+
+
 class SimFS(object):
     def __init__(self, cwd='/sim', record=True):
         self.files = {}          # abs path -> bytearray
@@ -285,6 +339,51 @@ class SimFS(object):
         self._next_ino = 1000
         self.now = lambda: 0.0   # simulated clock for time stamps (never advances it)
         self.stat_calls = 0
+        self.fds = {}            # fake file descriptor -> binary handle (os.open on a simulated path)
+
+    # -- file descriptors -------------------------------------------------
+    def os_open(self, path, flags, mode=0o777, *a, **k):
+        p = self.abspath(path)
+        exists = p in self.files
+        if flags & os.O_CREAT:
+            if exists and flags & os.O_EXCL:
+                raise FileExistsError(errno.EEXIST, 'File exists (simfs)', str(path))
+        elif not exists:
+            raise FileNotFoundError(errno.ENOENT, 'No such file or directory (simfs)', str(path))
+        acc = flags & os.O_ACCMODE
+        if acc == os.O_RDONLY:
+            m = 'rb'
+        elif flags & os.O_APPEND:
+            m = 'ab'
+        elif exists and not flags & os.O_TRUNC:
+            m = 'r+b'
+        else:
+            m = 'w+b' if acc == os.O_RDWR else 'wb'
+        h = self.open(p, m)
+        if acc == os.O_WRONLY:
+            h._can_read = False
+        fd = FD_BASE + h.hid
+        self.fds[fd] = h
+        return fd
+
+    def fd_handle(self, fd, mode='r'):
+        """open(fd, mode) / os.fdopen(fd, mode): a text or binary view on an already open descriptor"""
+        h = self.fds[fd]
+        m = mode.replace('t', '')
+        v = _Handle(self, h.path, ('r+' if 'r' in m and '+' in m else 'r' if 'r' in m else 'r+') + ('b' if 'b' in m else ''), h.hid)
+        v._can_read = h._can_read and ('r' in m or '+' in m)
+        v._can_write = h._can_write and any(c in m for c in 'wa+')
+        v.pos = len(self.files[h.path]) if 'a' in m else h.pos
+        self.open_handles += 1
+        fs = self
+
+        def close(orig=v.close):
+            orig()
+            hh = fs.fds.pop(fd, None)
+            if hh is not None:
+                hh.close()
+        v.close = close
+        return v
 
     def _touch(self, path, new_file=False):
         self.mtime[path] = float(self.now())
@@ -466,16 +565,66 @@ class SimFS(object):
         saved = [(builtins, 'open', builtins.open), (io, 'open', io.open)]
 
         def sim_open(file, mode='r', *a, **k):
+            if isinstance(file, int) and not isinstance(file, bool):
+                if file in fs.fds:
+                    return fs.fd_handle(file, mode)
+                return real_open(file, mode, *a, **k)
             if fs._is_sim_path(file):
                 return fs.open(os.fspath(file), mode)
             return real_open(file, mode, *a, **k)
         builtins.open = sim_open
         io.open = sim_open
+        real_fileio = io.FileIO
+
+        class RoutedFileIO(real_fileio):
+            def __new__(cls, file, mode='r', *a, **k):
+                if isinstance(file, int) and file in fs.fds:
+                    return SimRaw(fs.fd_handle(file, mode + ('b' if 'b' not in mode else '')), file)
+                if not isinstance(file, int) and fs._is_sim_path(file):
+                    return SimRaw(fs.open(os.fspath(file), mode + ('b' if 'b' not in mode else '')), os.fspath(file))
+                return real_fileio.__new__(cls, file, mode, *a, **k)
+        RoutedFileIO.__name__ = RoutedFileIO.__qualname__ = 'FileIO'
+        saved.append((io, 'FileIO', real_fileio))
+        io.FileIO = RoutedFileIO
+        real_os_open, real_fdopen = os.open, os.fdopen
+        saved.append((os, 'open', real_os_open))
+        saved.append((os, 'fdopen', real_fdopen))
+        os.open = lambda path, flags, mode=0o777, *a, **k: (fs.os_open(path, flags, mode) if fs._is_sim_path(path)
+                                                            else real_os_open(path, flags, mode, *a, **k))
+        os.fdopen = lambda fd, *a, **k: sim_open(fd, *a, **k)
+
+        def route_fd(name, sim_fn):
+            real = getattr(os, name, None)
+            if real is None:
+                return
+
+            def f(fd, *a, **k):
+                if isinstance(fd, int) and fd in fs.fds:
+                    return sim_fn(fd, *a, **k)
+                return real(fd, *a, **k)
+            f.__name__ = name
+            saved.append((os, name, real))
+            setattr(os, name, f)
+
+        def fd_close(fd):
+            fs.fds.pop(fd).close()
+        route_fd('close', fd_close)
+        route_fd('fchmod', lambda fd, *a, **k: None)
+        route_fd('fchown', lambda fd, *a, **k: None)
+        route_fd('fsync', lambda fd: None)
+        route_fd('fdatasync', lambda fd: None)
+        route_fd('fstat', lambda fd: fs.stat(fs.fds[fd].path))
+        route_fd('write', lambda fd, data: fs.fds[fd].write(bytes(data)))
+        route_fd('read', lambda fd, n: fs.fds[fd].read(n))
+        route_fd('lseek', lambda fd, pos, how: fs.fds[fd].seek(pos, how))
+        route_fd('ftruncate', lambda fd, n: fs.files[fs.fds[fd].path].__delitem__(slice(n, None)))
 
         def route(name, sim_fn, nargs=1):
             real = getattr(os, name)
 
             def f(*a, **k):
+                if a and nargs == 1 and isinstance(a[0], int) and a[0] in fs.fds:
+                    return sim_fn(fs.fds[a[0]].path)          # os.stat(fd) and friends
                 if a and all(fs._is_sim_path(x) for x in a[:nargs]):
                     return sim_fn(*a[:nargs])
                 return real(*a, **k)
@@ -492,6 +641,17 @@ class SimFS(object):
         route('mkdir', lambda p: None)
         route('makedirs', lambda p: None)
         route('access', lambda p: fs.exists(p) or fs.isdir(p))
+        route('chmod', lambda p: None)
+        route('chown', lambda p: None)
+
+        def utime(p, times=None, *a, **k):
+            ap = fs.abspath(p)
+            if ap not in fs.files:
+                raise FileNotFoundError(errno.ENOENT, 'No such file or directory (simfs)', str(p))
+            fs.mtime[ap] = float(times[1]) if times else float(fs.now())
+        real_utime = os.utime
+        saved.append((os, 'utime', real_utime))
+        os.utime = lambda p, *a, **k: utime(p, *a, **k) if fs._is_sim_path(p) else real_utime(p, *a, **k)
         if patch_getcwd:
             saved.append((os, 'getcwd', os.getcwd))
             os.getcwd = lambda: fs.cwd
